@@ -58,8 +58,8 @@ def build(tier):
         vf.add(f"pub mod {backend} {{\nuse super::*;\n")
         p = Piece(s2, s2.item("display_lifetime_edge", "fn"))
         p.sub("E6t", r"-> \(r: Cow<'a, str>\)", "-> (r: Retained)", count=1, why="tagged expression")
-        p.sub("E6t", r"param_name\.into\(\)", "Retained::param(param_name)", count=1, why="the parameter object itself")
-        p.sub("E6t", r'format!\("\{param_name\}' + holder + r'"\)\.into\(\)', "Retained::arena(param_name)", count=1, why=holder_why)
+        p.sub("E6t", r"param_name\.into\(\)", "Retained::param(param_name)", count="+", why="the parameter object itself")
+        p.sub("E6t", r'format!\("\{param_name\}' + holder + r'"\)\.into\(\)', "Retained::arena(param_name)", count=None, why=holder_why)
         p.sub("E6t", r'format!\("' + opt_tmpl + r'"\)\.into\(\)', "Retained::struct_fields(param_name, lt, true)", count=1, why="null-aware spread of the struct's lifetime-relevant fields")
         p.sub("E6t", r'format!\("\.\.\.\{param_name\}\._fieldsForLifetime\{lt\}"\)\.into\(\)', "Retained::struct_fields(param_name, lt, false)", count=1, why="spread of the struct's lifetime-relevant fields")
         p.fn("E5", rule_panics, why="unreachable! arm becomes an obligation")
